@@ -237,7 +237,7 @@ def generate(ctx):
                'gstats': dict(g.stats),
                'trail': [r.choice(['', ' ', '\n', '\n\n']) for _ in homes],
                'via_model': poison is None and r.random() < 0.6}
-    for c in P5.generate(ctx, n_quick=1500, multi=False):
+    for c in P5.generate(ctx, n_quick=1500, multi=False, bare=True):
         yield c
 
 
@@ -355,6 +355,11 @@ class Typer(object):
                             return 'constant', t
             return 'unresolved', None
         if head == 'VariableAccessNode':
+            if self.lookup(b[1]) is None:
+                for g, cs in G.SPEC['consts']:          # a bare name that is no visible variable: a constant of the model
+                    for n, t, _ in cs:
+                        if n == b[1]:
+                            return 'constant', t
             return 'variable', self.var_type(self.lookup(b[1]))
         if head == 'SelfAccessNode':
             return 'self', self.var_type(self.lookup('self'))
